@@ -20,7 +20,8 @@ RULE = ("W1: every choice of 1..3 disjoint contiguous windows (incl. empty and a
         "uncovered rows masked (list) / UNKNOWN (dict); list and dict agree on covered rows; data/time/depth/position "
         "equal the source on covered rows; all orders give the same outcome.  distinct = (front end, number of "
         "windows, coverage pattern class, order, tests, axes); trivial = one all-covering window.")
-ASSUMPTIONS = ["ContextResults come from the real streams, which put exactly one CallResult in each",
+ASSUMPTIONS = ["ContextResults come from the real streams, which put exactly one CallResult in each; re-grouped "
+               "ContextResults carrying several CallResults are judged on the flags only (list and dict form)",
                "windows are disjoint (the statement's order-independence clause)"]
 EXHAUSTIVE_ALL = False
 
@@ -49,7 +50,26 @@ def to_window(tb, iv):
     return (a, b)
 
 
-def judge_collected(ctx, label, tb, contexts, res, wb):
+def regroup(res):
+    """ContextResults of the same (stream, rows) merged into one carrying several CallResults -- the general
+    shape of the ContextResult type (no stream front end produces it)"""
+    from ioos_qc.results import ContextResult
+
+    out, index = [], {}
+    for r in res:
+        key = (r.stream_id, np.asarray(r.subset_indexes).tobytes())
+        if key in index:
+            old = out[index[key]]
+            out[index[key]] = ContextResult(stream_id=old.stream_id, results=[*old.results, *r.results],
+                                            subset_indexes=old.subset_indexes, data=old.data, tinp=old.tinp, zinp=old.zinp,
+                                            lat=old.lat, lon=old.lon)
+        else:
+            index[key] = len(out)
+            out.append(r)
+    return out
+
+
+def judge_collected(ctx, label, tb, contexts, res, wb, flags_only=False):
     from ioos_qc.results import collect_results
 
     try:
@@ -95,6 +115,8 @@ def judge_collected(ctx, label, tb, contexts, res, wb):
                 ctx.violation(f"C06:{label}:list:flags-on-wrong-rows",
                               {**wb, "result": list(k), "expected(None=not covered)": e, "observed(None=masked)": got})
             covered = np.array([v is not None for v in e])
+            if flags_only:
+                continue
             for name, src, have in (("data", tb.data[cr.stream_id], True), ("tinp", np.array(tb.secs), tb.with_time),
                                     ("zinp", tb.z, tb.with_z), ("lat", tb.lat, tb.with_pos), ("lon", tb.lon, tb.with_pos)):
                 arr = getattr(cr, name)
@@ -195,6 +217,14 @@ def run(ctx) -> None:
                         wb2 = {**wb, "arrival": wb["arrival"] + " + yielded results shuffled"}
                         outcomes.append(judge_collected(ctx, label, tb, ctxs, perm, wb2))
                         ctx.count("c06.collections")
+                    if len(res) > 1 and len(extra) >= 1 and "raise" not in extra:
+                        # several CallResults per ContextResult: flags (both forms) must still land on the right rows
+                        merged = regroup(res)
+                        if len(merged) < len(res):
+                            judge_collected(ctx, label + ":regrouped", tb, ctxs, merged,
+                                            {**wb, "arrival": wb["arrival"] + " + ContextResults of equal rows merged"},
+                                            flags_only=True)
+                            ctx.count("c06.regrouped_collections")
                     cov = "".join("x" if any(tb.rows_in(c["window"])[r] for c in contexts) else "." for r in range(n))
                     pattern = "all" if "." not in cov else "none" if "x" not in cov else "gaps"
                     ctx.case(f"{label}|k{len(combo)}|{pattern}|empty{sum(1 for a, b in combo if a == b)}|"
